@@ -1,6 +1,309 @@
-(* C16 — property statements only (filled in below). *)
+(* C16 — property statements only. Every theorem is closed by a lemma of Lemmas.v
+   and followed by Print Assumptions. *)
 From Mux Require Import Model Lemmas.
 
+(* ------------------------------------------------------------ percent codec *)
+
+(* url.PathUnescape(url.PathEscape(s)) = s, the same for the query codec and for the
+   encoding of whole paths: all byte strings, all three modes *)
 Theorem unescape_escape m s : unescape m (escape m s) = Some s.
 Proof. exact (Lemmas.unescape_escape m s). Qed.
 Print Assumptions unescape_escape.
+
+(* http/mux.go unescape undoes url.PathEscape *)
+Theorem mux_unescape_path_escape s : unescape_or_id (escape PathSeg s) = s.
+Proof. exact (unescape_or_id_escape s). Qed.
+Print Assumptions mux_unescape_path_escape.
+
+(* url.PathEscape never leaves a '/' *)
+Theorem path_escape_no_slash s : ~ In slash (escape PathSeg s).
+Proof. exact (escape_seg_no_slash s). Qed.
+Print Assumptions path_escape_no_slash.
+
+(* URL.setPath: Path is the decoding; RawPath is empty exactly when the received path
+   is the default encoding of Path, and is the received path otherwise *)
+Theorem set_path_spec wire p raw :
+  set_path wire = Some (p, raw) ->
+  unescape Path wire = Some p /\ (raw = [] <-> wire = escape Path p) /\ (raw <> [] -> raw = wire).
+Proof. exact (Lemmas.set_path_spec wire p raw). Qed.
+Print Assumptions set_path_spec.
+
+Theorem set_path_default_encoding p : set_path (escape Path p) = Some (p, []).
+Proof. exact (set_path_total_on_escaped p). Qed.
+Print Assumptions set_path_default_encoding.
+
+(* URL.EscapedPath always decodes to Path, whatever RawPath holds *)
+Theorem escaped_path_decodes path raw : unescape Path (escaped_path path raw) = Some path.
+Proof. exact (Lemmas.escaped_path_decodes path raw). Qed.
+Print Assumptions escaped_path_decodes.
+
+(* RawPath of a URL built by substituting url.PathEscape(values) into a pattern: empty
+   exactly when no value contains '/', ';' or ',' *)
+Theorem build_url_rawpath ip : wf_ipat ip = true ->
+  exists path, set_path (build_url ip) = Some (path, if forallb neutral (ivals ip) then [] else build_url ip).
+Proof.
+  intro H. unfold wf_ipat in H. apply andb_prop in H as [H _].
+  exists (slash :: join_slash (dsegs ip)).
+  rewrite (build_url_set_path ip (wf_pattern_lit_plain ip H)), (dsegs_neutral_iff ip (wf_pattern_lit_plain ip H)).
+  reflexivity.
+Qed.
+Print Assumptions build_url_rawpath.
+
+(* ----------------------------------------------------------------- matching *)
+
+(* a {name} wildcard captures one segment of the routed path: never a '/' *)
+Theorem single_segment_no_slash pat rp caps k v :
+  matches pat (path_segs rp) = Some caps -> In (k, v) caps -> k <> [star] -> ~ In slash v.
+Proof. exact (Lemmas.single_segment_no_slash pat rp caps k v). Qed.
+Print Assumptions single_segment_no_slash.
+
+(* a trailing {*name} captures all that is left, slashes included *)
+Theorem catchall_captures_rest pre n xs caps rest :
+  matches pre xs = Some caps -> (forall m, ~ In (CatchAll m) pre) -> rest <> [] ->
+  matches (pre ++ [CatchAll n]) (xs ++ rest) = Some (caps ++ [([star], join_slash rest)]).
+Proof. exact (Lemmas.catchall_captures_rest pre n xs caps rest). Qed.
+Print Assumptions catchall_captures_rest.
+
+(* ... including nothing at all ("/f/" for "/f/{*p}") *)
+Theorem empty_catchall_ok pre n xs caps :
+  matches pre xs = Some caps -> (forall m, ~ In (CatchAll m) pre) ->
+  matches (pre ++ [CatchAll n]) (xs ++ [[]]) = Some (caps ++ [([star], [])]).
+Proof. exact (Lemmas.empty_catchall_ok pre n xs caps). Qed.
+Print Assumptions empty_catchall_ok.
+
+(* chi: {name} refuses an empty last segment and accepts an empty inner one *)
+Theorem var_empty_segment n l :
+  matches [Var n] [[]] = None /\ matches [Var n; Lit l] [[]; l] = Some [(n, [])].
+Proof. exact (conj (var_empty_last_no_match n) (var_empty_inner_matches n l)). Qed.
+Print Assumptions var_empty_segment.
+
+(* ------------------------------------------- the property's URL construction *)
+
+(* the URL built by substituting escaped values into a pattern is matched by that
+   pattern; Vars then holds, per wildcard, the value itself when RawPath is set and
+   the value unescaped once more when RawPath is empty *)
+Theorem build_url_matches ip : wf_ipat ip = true ->
+  captured (pat_of ip) (build_url ip) =
+    Some (if forallb neutral (ivals ip) then icaps unescape_or_id ip else icaps idv ip).
+Proof. exact (captured_build_url ip). Qed.
+Print Assumptions build_url_matches.
+
+(* exactly which built URLs give their values back: some value contains / ; or , (chi
+   then routes on RawPath) or every value survives url.PathUnescape unchanged *)
+Theorem vars_roundtrip_iff ip : wf_ipat ip = true ->
+  (captured (pat_of ip) (build_url ip) = Some (icaps idv ip)
+   <-> forallb neutral (ivals ip) = false \/ forallb stable (ivals ip) = true).
+Proof. exact (Lemmas.vars_roundtrip_iff ip). Qed.
+Print Assumptions vars_roundtrip_iff.
+
+Theorem vars_roundtrip_partial ip : wf_ipat ip = true ->
+  forallb neutral (ivals ip) = false \/ forallb stable (ivals ip) = true ->
+  captured (pat_of ip) (build_url ip) = Some (icaps idv ip).
+Proof. intros H. exact (proj2 (Lemmas.vars_roundtrip_iff ip H)). Qed.
+Print Assumptions vars_roundtrip_partial.
+
+(* in particular: values without any '%' *)
+Theorem vars_roundtrip_no_percent ip : wf_ipat ip = true ->
+  (forall v, In v (ivals ip) -> ~ In pct v) ->
+  captured (pat_of ip) (build_url ip) = Some (icaps idv ip).
+Proof.
+  intros H Hv. apply (proj2 (Lemmas.vars_roundtrip_iff ip H)). right. apply forallb_forall.
+  intros v Hin. exact (stable_no_pct v (Hv v Hin)).
+Qed.
+Print Assumptions vars_roundtrip_no_percent.
+
+(* the finding: "%41" placed in /u/{id} comes back as "A" *)
+Theorem vars_double_unescape_refuted :
+  exists ip got, wf_ipat ip = true /\ captured (pat_of ip) (build_url ip) = Some got /\ got <> icaps idv ip.
+Proof.
+  exists w_ip, [(b_id, v_A)]. destruct w_ip_facts as (H1 & _ & H3 & H4).
+  split; [exact H1|]. split; [exact H3|]. rewrite H4. discriminate.
+Qed.
+Print Assumptions vars_double_unescape_refuted.
+
+(* ---------------------------------------------------------------- the muxer *)
+
+(* every muxer built from NewMuxer by Use and Handle keeps the wildcard-name table in
+   step with the routes *)
+Theorem reachable_wf m : reachable m -> wf_mux m.
+Proof. exact (Lemmas.reachable_wf m). Qed.
+Print Assumptions reachable_wf.
+
+(* pattern resolution: for every registered route, in either wildcard form, the pattern
+   rebuilt from chi's pattern is the registered one *)
+Theorem resolve_pattern_id m r : reachable m -> In r (routes m) ->
+  resolve_wildcard m (r_meth r) (chi_render (r_pat r)) = goa_render (r_pat r).
+Proof. intro H. exact (resolve_registered m r (Lemmas.reachable_wf m H)). Qed.
+Print Assumptions resolve_pattern_id.
+
+(* one request that no middleware resolved before routing, for any precedence oracle
+   that picks from the matching set: the handler reached is registered for the method
+   and matches; Vars is what that pattern captured, the catch-all under its own name; the
+   handler and the middlewares (after next) are told the registered pattern; otherwise
+   404 with the negotiated encoder, or 405 when only another method matches *)
+Theorem serve_spec pick m me wire ar ap : sound pick -> reachable m ->
+  match set_path wire with
+  | None => serve pick m me wire [] ar ap = None
+  | Some (path, raw) =>
+    let segs := path_segs (route_path path raw) in
+    exists o, serve pick m me wire [] ar ap = Some o /\ o_pre o = [] /\
+      match o_out o with
+      | Handled h vs hp =>
+        exists r capt, In r (cands m me segs) /\ r_h r = h /\ captured (r_pat r) wire = Some capt /\
+          vs = map (rename (opt_name (catchall_name (r_pat r)))) capt /\
+          hp = goa_render (r_pat r) /\ o_post o = goa_render (r_pat r)
+      | NotFound e => cands m me segs = [] /\ other_method_matches m segs = false /\ e = response_encoder ar ap
+      | MethodNotAllowed => cands m me segs = [] /\ other_method_matches m segs = true
+      end
+  end.
+Proof. intros Hs Hm. exact (Lemmas.serve_spec pick Hs m me wire ar ap (Lemmas.reachable_wf m Hm)). Qed.
+Print Assumptions serve_spec.
+
+Theorem dispatch_sound pick m me wire ar ap o h vs hp : sound pick -> reachable m ->
+  serve pick m me wire [] ar ap = Some o -> o_out o = Handled h vs hp ->
+  exists path raw r, set_path wire = Some (path, raw) /\
+    In r (cands m me (path_segs (route_path path raw))) /\ r_h r = h.
+Proof. intros Hs Hm. exact (Lemmas.dispatch_sound pick Hs m me wire ar ap o h vs hp (Lemmas.reachable_wf m Hm)). Qed.
+Print Assumptions dispatch_sound.
+
+(* a handler runs iff the matching set is not empty; 404 iff no route of any method
+   matches the path; 405 iff only routes of other methods do *)
+Theorem dispatch_404 pick m me wire ar ap o path raw : sound pick -> reachable m ->
+  serve pick m me wire [] ar ap = Some o -> set_path wire = Some (path, raw) ->
+  let segs := path_segs (route_path path raw) in
+  ((exists h vs hp, o_out o = Handled h vs hp) <-> cands m me segs <> []) /\
+  (o_out o = NotFound (response_encoder ar ap) <-> cands m me segs = [] /\ other_method_matches m segs = false) /\
+  (o_out o = MethodNotAllowed <-> cands m me segs = [] /\ other_method_matches m segs = true).
+Proof. intros Hs Hm. exact (dispatch_unhandled_iff pick Hs m me wire ar ap o path raw (Lemmas.reachable_wf m Hm)). Qed.
+Print Assumptions dispatch_404.
+
+(* exactly one registered route matches: its handler runs, its pattern is reported *)
+Theorem dispatch_unique pick m me wire ar ap o path raw r : sound pick -> reachable m ->
+  serve pick m me wire [] ar ap = Some o -> set_path wire = Some (path, raw) ->
+  cands m me (path_segs (route_path path raw)) = [r] ->
+  exists vs, o_out o = Handled (r_h r) vs (goa_render (r_pat r)) /\ o_post o = goa_render (r_pat r).
+Proof. intros Hs Hm. exact (Lemmas.dispatch_unique pick Hs m me wire ar ap o path raw r (Lemmas.reachable_wf m Hm)). Qed.
+Print Assumptions dispatch_unique.
+
+(* end to end: the URL built for a registered pattern is never answered 404/405; a
+   handler of the same method whose pattern matches runs and is told its own pattern;
+   when it is the handler of that pattern, Vars maps every wildcard name to `returned` *)
+Theorem built_request_served pick m r ip ar ap : sound pick -> reachable m ->
+  In r (routes m) -> r_pat r = pat_of ip -> wf_ipat ip = true ->
+  exists o r' vs,
+    serve pick m (r_meth r) (build_url ip) [] ar ap = Some o /\
+    In r' (routes m) /\ r_meth r' = r_meth r /\ captured (r_pat r') (build_url ip) <> None /\
+    o_out o = Handled (r_h r') vs (goa_render (r_pat r')) /\ o_post o = goa_render (r_pat r') /\
+    (r' = r -> vs = returned ip).
+Proof. intros Hs Hm. exact (Lemmas.built_request_served pick Hs m r ip ar ap (Lemmas.reachable_wf m Hm)). Qed.
+Print Assumptions built_request_served.
+
+(* ... and `returned` is the client's values exactly under the condition of vars_roundtrip_iff *)
+Theorem returned_values_iff ip :
+  returned ip = values_of ip <-> forallb neutral (ivals ip) = false \/ forallb stable (ivals ip) = true.
+Proof. exact (returned_iff ip). Qed.
+Print Assumptions returned_values_iff.
+
+(* the finding end to end, whatever chi's precedence: Handle(GET,"/u/{id}"), GET /u/%2541 *)
+Theorem serve_double_unescape_refuted :
+  exists m ip, reachable m /\ wf_ipat ip = true /\ values_of ip = [(b_id, v_pct41)] /\
+    forall pick ar ap, sound pick ->
+      exists o, serve pick m GET (build_url ip) [] ar ap = Some o /\
+                o_out o = Handled 0 [(b_id, v_A)] (goa_render (pat_of ip)).
+Proof.
+  exists w_mux, w_ip. destruct w_ip_facts as (H1 & H2 & _). split; [exact w_mux_reachable|].
+  split; [exact H1|]. split; [exact H2|]. intros pick ar ap Hs. exact (double_unescape_served pick Hs ar ap).
+Qed.
+Print Assumptions serve_double_unescape_refuted.
+
+(* ------------------------------------- ResolvePattern before the request is routed *)
+
+(* the finding: Use(mw); Handle(GET,"/f/{*p}"); mw calls ResolvePattern before next;
+   GET /f/a/b. The early call gets "/f/{*p}", but the handler and the middleware after
+   next get "/f/f/*" and Vars files the catch-all under the empty name — whatever chi's
+   precedence *)
+Theorem resolve_before_routing_refuted :
+  exists m me wire r, reachable m /\ routes m = [r] /\
+    forall pick ar ap, sound pick ->
+      exists o h vs hp, serve pick m me wire [true] ar ap = Some o /\
+        o_pre o = [goa_render (r_pat r)] /\ o_out o = Handled h vs hp /\ h = r_h r /\
+        hp <> goa_render (r_pat r) /\ o_post o <> goa_render (r_pat r) /\ In ([], v_a_b) vs.
+Proof.
+  exists w_mux2, GET, w_wire2, {| r_meth := GET; r_pat := [Lit b_f; CatchAll b_p]; r_h := 0 |}.
+  split; [exact w_mux2_reachable|]. split; [reflexivity|]. intros pick ar ap Hs.
+  destruct (resolve_before_routing_served pick Hs ar ap) as (o & E & Hpre & Hout & Hpost & Hg & _).
+  exists o, 0, [([], v_a_b); ([], v_a_b)], w_pat2_seen. cbn [r_pat r_h]. rewrite Hg, Hpost.
+  repeat split; try assumption; try discriminate. now left.
+Qed.
+Print Assumptions resolve_before_routing_refuted.
+
+(* the same muxer and request without the early call: everything is reported correctly *)
+Theorem resolve_after_routing_ok pick ar ap : sound pick ->
+  exists o, serve pick w_mux2 GET w_wire2 [false] ar ap = Some o /\
+    o_pre o = [] /\ o_out o = Handled 0 [(b_p, v_a_b)] w_pat2_goa /\ o_post o = w_pat2_goa.
+Proof. intro Hs. exact (resolve_after_routing_served pick Hs ar ap). Qed.
+Print Assumptions resolve_after_routing_ok.
+
+(* the early call matches the decoded URL.Path: with RawPath set it can report the
+   pattern of a route other than the one chi then runs, and leave that route's
+   variables in Vars (GET /u/a%2Fb against "/u/{id}" and "/u/{a}/{b}") *)
+Theorem resolve_decoded_path_refuted :
+  exists pick m me wire, sound pick /\ reachable m /\ forall ar ap,
+    exists o vs hp, serve pick m me wire [true] ar ap = Some o /\
+      o_pre o = [goa_render [Lit b_u; Var b_a; Var b_b]] /\ o_out o = Handled 0 vs hp /\
+      vs = [(b_a, b_a); (b_b, b_b); (b_id, v_a_b)] /\ hp <> goa_render [Lit b_u; Var b_id].
+Proof.
+  exists first_pick, w_mux3, GET, w_wire3. split; [exact first_pick_sound|]. split; [exact w_mux3_reachable|].
+  intros ar ap. destruct (resolve_decoded_path_served ar ap) as (o & E & Hpre & vs & hp & Hout & Hvs & Hhp).
+  exists o, vs, hp. split; [exact E|]. split; [exact Hpre|]. split; [exact Hout|]. split; [exact Hvs|exact Hhp].
+Qed.
+Print Assumptions resolve_decoded_path_refuted.
+
+(* ------------------------------------------------------- the not-found body *)
+
+(* the 404 body is the well-formed fault unless the text encoder was negotiated *)
+Theorem notfound_body_partial ar ap :
+  (forall h, response_encoder ar ap <> EText h) ->
+  notfound_body (response_encoder ar ap) = Some notfound_error /\
+  eb_name_fault notfound_error = true /\ eb_fault notfound_error = true /\ eb_msg_404 notfound_error = true.
+Proof. intro H. split; [exact (notfound_body_wellformed ar ap H)|repeat split]. Qed.
+Print Assumptions notfound_body_partial.
+
+(* exactly when that happens: Accept is text/html or text/plain, literally or after
+   mime.ParseMediaType normalised it *)
+Theorem notfound_text_encoder_iff ar ap h :
+  response_encoder ar ap = EText h <->
+  (ar = (if h then MHtml else MPlain)) \/ (ar = MOther /\ ap = Some (if h then MHtml else MPlain)).
+Proof. exact (text_encoder_iff ar ap h). Qed.
+Print Assumptions notfound_text_encoder_iff.
+
+(* the finding: Accept text/html gives a 404 without a body *)
+Theorem notfound_text_refuted : exists ar ap, notfound_body (response_encoder ar ap) = None.
+Proof. exists MHtml, None. reflexivity. Qed.
+Print Assumptions notfound_text_refuted.
+
+(* ------------------------------------------------------------ Use and Handle *)
+
+(* middlewares given to Use before the first Handle are installed by it, in order *)
+Theorem use_before_handle fs me p h : exists m', uses fs new_muxer = Some m' /\ mws (handle me p h m') = fs.
+Proof. exact (use_then_handle fs me p h). Qed.
+Print Assumptions use_before_handle.
+
+(* the finding: Use after any Handle panics *)
+Theorem use_after_handle_refuted f me p h m : use f (handle me p h m) = None.
+Proof. exact (use_after_handle f me p h m). Qed.
+Print Assumptions use_after_handle_refuted.
+
+(* ------------------------------------------------------------- non-vacuity *)
+
+(* a reachable muxer with three routes (two methods), a pattern with a single-segment
+   wildcard holding "a/b" and an empty catch-all: hypotheses of the theorems above are
+   satisfiable, and the request is served as they say *)
+Example built_request_example :
+  wf_ipat ex_ip = true /\ reachable ex_mux /\ length (routes ex_mux) = 3 /\
+  exists o, serve first_pick ex_mux GET (build_url ex_ip) [] MEmpty None = Some o /\
+            o_out o = Handled 1 [(b_id, v_a_b); (b_p, [])] (goa_render (pat_of ex_ip)).
+Proof. exact ex_facts. Qed.
+
+Example sound_pick_exists : sound first_pick.
+Proof. exact first_pick_sound. Qed.
